@@ -6,7 +6,7 @@ from fractions import Fraction as F
 
 import numpy as np
 
-from mc.util import call, raised
+from mc.util import call, raised, array_args, array_args_unchanged
 from models import blockref as B
 from checks.c09 import build
 
@@ -50,6 +50,12 @@ def _placements(tier):
 
 
 def cases(tier, seed):
+    """Every fifth BlockMean case (rotating with the seed) hands region / shape / spacing over as numpy arrays (purity checked)."""
+    for i, c in enumerate(_cases(tier, seed)):
+        yield dict(c, args="ndarray") if (i + seed) % 5 == 0 and c["kind"] == "blockmean" and not c.get("route") else c
+
+
+def _cases(tier, seed):
     for ms in _placements(tier):
         for order in ("asc", "rev"):
             if len(ms) == 1 and order == "rev":
@@ -208,6 +214,11 @@ def run(case, rec):
     elif route == "clone":
         from sklearn.base import clone
         bm = call(rec, lambda: clone(vd.BlockMean(**kw)))
+    elif case.get("args") == "ndarray":
+        kw_a, snap_a = array_args(kw)
+        if np.isscalar(kw_a.get("spacing")):
+            kw_a["spacing"] = np.float64(kw_a["spacing"])
+        bm = call(rec, vd.BlockMean, **kw_a)
     else:
         bm = call(rec, vd.BlockMean, **kw)
     if raised(bm):
@@ -215,6 +226,8 @@ def run(case, rec):
     got = call(rec, bm.filter, c_arg, d_arg, w_arg)
     after = [a.tobytes() for a in [e, n] + data + (wts or [])]
     rec.check(before == after, "BlockMean.filter modified its input arrays")
+    if case.get("args") == "ndarray":
+        rec.check(array_args_unchanged(kw_a, snap_a), "BlockMean.filter modified a parameter array: %r" % ({k: kw_a[k].tolist() for k in snap_a},))
     if not case["w"]:
         # "no weights" spelled as one None per component (what train_test_split hands back): same behaviour as None (seed C10-7)
         got_n = call(rec, bm.filter, c_arg, d_arg, tuple([None] * ncomp))
